@@ -14,11 +14,20 @@ Inductive cell :=
 | CVal (v : sval)
 | CAd (content addr : bytes).
 
+(* builder history operations (plain values only) *)
+Inductive hop :=
+| HPut (i : nat) (v : sval)
+| HBuild                            (* Build or BuildPermissive *)
+| HPrefix (k : nat)
+| HPrefixNR (k : nat)
+| HRecycle.
+
 Record input := {
   i_types : list (enc * bool);      (* encoding, nullable *)
   i_target : N;                     (* tupleLengthTarget *)
   i_a : list cell;
-  i_b : list cell
+  i_b : list cell;
+  i_hist : list hop                 (* a history run on ONE reused builder over the same descriptor *)
 }.
 
 Record obs := {
@@ -31,7 +40,8 @@ Record obs := {
   o_dec : list (option sval);       (* TupleDesc.GetXxx of A for every column *)
   o_cmp : Z;                        (* TupleDesc.Compare(A, B) *)
   o_cmp_ba : Z;                     (* TupleDesc.Compare(B, A) *)
-  o_cmp_nofast : Z                  (* Compare(A, B) without the fixed-access fast path *)
+  o_cmp_nofast : Z;                 (* Compare(A, B) without the fixed-access fast path *)
+  o_hist : list bytes               (* the tuples the reused builder produced along i_hist *)
 }.
 
 Definition case := (input * obs)%type.
@@ -64,6 +74,15 @@ Fixpoint lookup (st : list (bytes * bytes)) (addr : bytes) : bytes :=
   | (a, c) :: r => if beq_bytes a addr then c else lookup r addr
   end.
 
+Definition to_bop (types : list enc) (h : hop) : bop :=
+  match h with
+  | HPut i v => OPut i (BPlain (nth i types EInt8) v)
+  | HBuild => OBuild
+  | HPrefix k => OBuildPrefix k
+  | HPrefixNR k => OBuildPrefixNoRecycle k
+  | HRecycle => ORecycle
+  end.
+
 Definition enum_N (n : nat) : list N := map N.of_nat (seq 0 n).
 
 Definition model_obs (i : input) : obs :=
@@ -81,7 +100,8 @@ Definition model_obs (i : input) : obs :=
      o_dec := map (fun p => match snd p with None => None | Some b => Some (decode rd (fst p) b) end) (combine types fields);
      o_cmp := comparison_code (tuple_compare rd types ta tb);
      o_cmp_ba := comparison_code (tuple_compare rd types tb ta);
-     o_cmp_nofast := comparison_code (tuple_compare rd types ta tb) |}.
+     o_cmp_nofast := comparison_code (tuple_compare rd types ta tb);
+     o_hist := bs_run (i_target i) (length types) (bs_init (length types)) (map (to_bop types) (i_hist i)) |}.
 
 (* --- equality of observations --- *)
 Definition field_eqb (a b : field) : bool :=
@@ -127,7 +147,8 @@ Definition obs_eqb (a b : obs) : bool :=
   beq_bytes (o_a a) (o_a b) && Bool.eqb (o_same a) (o_same b) && beq_bytes (o_a_out a) (o_a_out b)
   && beq_bytes (o_b a) (o_b b) && (o_count a =? o_count b)
   && list_eqb field_eqb (o_fields a) (o_fields b) && list_eqb osval_eqb (o_dec a) (o_dec b)
-  && (o_cmp a =? o_cmp b)%Z && (o_cmp_ba a =? o_cmp_ba b)%Z && (o_cmp_nofast a =? o_cmp_nofast b)%Z.
+  && (o_cmp a =? o_cmp b)%Z && (o_cmp_ba a =? o_cmp_ba b)%Z && (o_cmp_nofast a =? o_cmp_nofast b)%Z
+  && list_eqb beq_bytes (o_hist a) (o_hist b).
 
 (* --- the property on what the implementation returned ---
    (1) however the tuple was built (builder reuse, order of Put calls, Build /
@@ -138,7 +159,9 @@ Definition obs_eqb (a b : obs) : bool :=
    (3) comparing the two stored tuples gives the field-by-field SQL order of
        the rows with NULL first, in both directions, with and without the
        fixed-access fast path;
-   (4) rows that agree after dropping trailing NULLs have identical bytes. *)
+   (4) rows that agree after dropping trailing NULLs have identical bytes;
+   (5) every tuple a reused builder produces along a history is NewTuple of
+       exactly the fields put since the last Build / BuildPrefix / Recycle. *)
 Definition oracle (i : input) (o : obs) : bool :=
   let types := map fst (i_types i) in
   let ra := row_of (i_a i) in
@@ -149,7 +172,8 @@ Definition oracle (i : input) (o : obs) : bool :=
   && (o_cmp o =? comparison_code (row_compare types ra rb))%Z
   && (o_cmp_ba o =? comparison_code (row_compare types rb ra))%Z
   && (o_cmp_nofast o =? o_cmp o)%Z
-  && (negb (list_eqb osval_eqb (trim_row ra) (trim_row rb)) || beq_bytes (o_a o) (o_b o)).
+  && (negb (list_eqb osval_eqb (trim_row ra) (trim_row rb)) || beq_bytes (o_a o) (o_b o))
+  && list_eqb beq_bytes (o_hist o) (spec_outputs (i_target i) (length types) [] (map (to_bop types) (i_hist i))).
 
 Definition check_case (c : case) : N :=
   (if obs_eqb (model_obs (fst c)) (snd c) then 0 else 1)
